@@ -81,6 +81,7 @@ class Analyzer:
                 self.notes.append(n)
         r = Result(entry, fn, config, ctx, val)
         r.self_fields_declared = set(self_fields) if isinstance(self_fields, dict) else set()
+        r.inputs = dict(kws or {})
         return r
 
 
